@@ -303,6 +303,6 @@ def callWhereCk : Nat → SStack → Nat → List Expr → List String → List 
 end
 
 /-- `simplify_chained_calls().visit(e)` with the side conditions checked -/
-def simplifyCk (fuel : Nat) (c : Nat) (e : Expr) : Except Err (Expr × Nat) := simpCk fuel [[]] c e
+def simplifyCk (fuel : Nat) (c : Nat) (e : Expr) : Except Err (Expr × Nat) := simpCk fuel [[]] (max c (nextArg e)) e
 
 end Fadl
